@@ -216,6 +216,21 @@ def run(ctx):
             ctx.count("malformed_rejected")
         except Exception as e:               # noqa: BLE001
             bad.append(("crash:malformed", "topology name %r raised %r" % (topo, e), {"topology": topo, "nodes": nodes}))
+    # the generators themselves (public module functions) must enforce the edge range too, not only the name parser
+    for n in range(2, 9):
+        nd = rng.sample(POOL, n) if len(POOL) >= n else list(range(n))
+        maxe = n * (n - 1) // 2
+        for k in sorted({0, 1, n - 2, maxe + 1, maxe + 3} - set(range(n - 1, maxe + 1))):
+            if k < 0:
+                continue
+            try:
+                r = net.get_random_connected(list(nd), k)
+                bad.append(("oracle:range", "get_random_connected(%d nodes, %d edges) accepted although k is outside [n-1, n(n-1)/2]" % (n, k),
+                            {"topology": "get_random_connected", "nodes": nd, "k": k, "returned": r}))
+            except ValueError:
+                ctx.count("direct_range_rejections")
+            except Exception as e:           # noqa: BLE001
+                bad.append(("crash:range", "get_random_connected(%d nodes, %d edges) raised %r" % (n, k, e), {"nodes": nd, "k": k}))
     given = {"a": ["b"], "b": ["a"]}
     if net.construct_topology_config(None, nodes) is not None or net.construct_topology_config(copy.deepcopy(given), nodes) != given:
         bad.append(("oracle:passthrough", "None / ready-made dictionary not passed through", {"nodes": nodes}))
